@@ -84,6 +84,24 @@ def levelsOf (table : List (String × List String)) : Levels where
 /-- the levels the implementation's `precedence` tuple declares -/
 def genLevels : Levels := levelsOf BdGrammar.precedence
 
+/-- associativity a precedence table declares for a token ("" = none) -/
+def assocIn (table : List (String × List String)) (tok : String) : String :=
+  match table.find? (fun row => row.2.contains tok) with
+  | some row => row.1
+  | none => ""
+
+/-- Two level tables order the operators of each grammar level in the same way.  The reference parser (and yacc's
+    conflict resolution) only ever compares levels of operators that can meet: arithmetic/bitwise operators and unary ±
+    among themselves, comparison/logical operators and `!` among themselves — the two-level grammar keeps the groups apart. -/
+def Levels.sameOrder (A B : Levels) : Bool :=
+  let ex (L : Levels) : List Nat := BinOp.all.map L.bin ++ [L.neg, L.pos]
+  let bo (L : Levels) : List Nat := CmpOp.all.map L.cmp ++ [L.lnot]
+  let same (xs ys : List Nat) : Bool :=
+    (List.range xs.length).all (fun i => (List.range xs.length).all (fun j =>
+      (decide (xs.getD i 0 < xs.getD j 0) == decide (ys.getD i 0 < ys.getD j 0)) &&
+      (decide (0 < xs.getD i 0) == decide (0 < ys.getD i 0))))
+  same (ex A) (ex B) && same (bo A) (bo B)
+
 /-! ### Tokens and lexer -/
 
 inductive Tok where
